@@ -59,12 +59,24 @@ def main(p):
             back = bits.pack(u, nbits, bitorder=order)
             if not np.array_equal(back, b):
                 bad.append(f"pack(unpack({vals})) = {list(map(int, back))}")
+            for fill in ([p["stale"]] if p.get("stale") and len(p["stale"]) == len(vals) else []) + [[0xEE] * len(vals)]:
+                pbuf = np.array(fill, dtype=np.uint8)
+                bits.pack(u, nbits, pbuf, bitorder=order)
+                if not np.array_equal(pbuf, b):
+                    bad.append(f"pack(unpack({vals})) into a caller buffer holding {fill} = {list(map(int, pbuf))}")
+                    break
         else:
             v = np.array(vals, dtype=np.uint8)
             pk = bits.pack(v, nbits, bitorder=order)
             back = bits.unpack(pk, nbits, bitorder=order)
             if not np.array_equal(back, v):
                 bad.append(f"unpack(pack({vals})) = {list(map(int, back))}")
+            for fill in ([p["stale"]] if p.get("stale") and len(p["stale"]) == len(vals) // f else []) + [[0xEE] * (len(vals) // f)]:
+                pbuf = np.array(fill, dtype=np.uint8)
+                bits.pack(v, nbits, pbuf, bitorder=order)
+                if not np.array_equal(bits.unpack(pbuf, nbits, bitorder=order), v):
+                    bad.append(f"unpack(pack({vals}) into a caller buffer holding {fill}) = {list(map(int, bits.unpack(pbuf, nbits, bitorder=order)))}")
+                    break
             want = [sum(int(v[i * f + k]) << (((f - 1 - k) if order == 'big' else k) * nbits) for k in range(f)) for i in range(len(vals) // f)]
             if list(map(int, pk)) != want:
                 bad.append(f"pack({vals}) = {list(map(int, pk))}, definition gives {want}")
